@@ -231,4 +231,32 @@ pub assume_specification<T, U> [core::panicking::assert_failed] (_0: core::panic
 #[verifier::external_body]
 pub struct ExCopied<I>(std::iter::Copied<I>);
 
+// ---- by-value iteration of VecDeque / HashMap (std docs: "Creates a consuming iterator, that is, one that moves each value out
+// of the deque (from start to end)" / "... each key-value pair out of the map in arbitrary order").  vstd has no specification
+// for these two iterator types; the assumed specifications below say they are finite iterators over exactly the elements.
+#[verifier::external_type_specification]
+#[verifier::external_body]
+#[verifier::reject_recursive_types(T)]
+#[verifier::reject_recursive_types(A)]
+pub struct ExVecDequeIntoIter<T, A: std::alloc::Allocator>(std::collections::vec_deque::IntoIter<T, A>);
+
+pub assume_specification<T, A: std::alloc::Allocator> [<VecDeque<T, A> as IntoIterator>::into_iter] (d: VecDeque<T, A>) -> (r: std::collections::vec_deque::IntoIter<T, A>)
+    ensures r.obeys_prophetic_iter_laws(), r.decrease() is Some, r.remaining() == d@;
+
+#[verifier::external_type_specification]
+#[verifier::external_body]
+#[verifier::reject_recursive_types(K)]
+#[verifier::reject_recursive_types(V)]
+#[verifier::reject_recursive_types(A)]
+pub struct ExHashMapIntoIter<K, V, A: std::alloc::Allocator>(std::collections::hash_map::IntoIter<K, V, A>);
+
+pub assume_specification<K, V, S, A: std::alloc::Allocator> [<HashMap<K, V, S, A> as IntoIterator>::into_iter] (m: HashMap<K, V, S, A>) -> (r: std::collections::hash_map::IntoIter<K, V, A>)
+    ensures r.obeys_prophetic_iter_laws(), r.decrease() is Some,
+        obeys_key_model::<K>() && builds_valid_hashers::<S>() ==> {
+            &&& r.remaining().len() == m@.len()
+            &&& forall|i: int| 0 <= i < r.remaining().len() ==> m@.contains_pair((#[trigger] r.remaining()[i]).0, r.remaining()[i].1)
+            &&& forall|i: int, j: int| 0 <= i < j < r.remaining().len() ==> (#[trigger] r.remaining()[i]).0 != (#[trigger] r.remaining()[j]).0
+            &&& forall|k: K| m@.contains_key(k) ==> exists|i: int| 0 <= i < r.remaining().len() && (#[trigger] r.remaining()[i]).0 == k
+        };
+
 } // verus!
